@@ -73,6 +73,7 @@ type c06case struct {
 	pc       uintptr // the call site the record is attributed to (one of 320)
 	nilAt    []int   // positions at which the attribute list handed over holds an unused (nil) slot
 	tsLayout string  // the logger's own timestamp layout, if the application set one (it concerns the timestamp only)
+	tsFlags  int     // 0: the factory date/time flags; 1-8: one of the eight combinations of Ldate, Ltime, Lmicroseconds (+1)
 }
 
 // withNils inserts nil slots (what a pre-sized attribute list holds where nothing was put) at the given positions.
@@ -116,6 +117,10 @@ func c06gen(r *gen.R, testing bool) c06case {
 		// the application's own timestamp layout (blanks, commas, zone abbreviations): it says how the record's instant is
 		// written, the attribute values are written as always
 		c.tsLayout = gen.Pick(r, []string{time.RFC1123, time.UnixDate, time.Kitchen, "Jan _2 15:04:05 MST", time.RFC822, "2006-01-02 15:04:05.000"})
+	}
+	if c.tsLayout == "" && r.P(12) {
+		// the application's choice of date/time flags (all eight combinations): they say how the instant is written
+		c.tsFlags = 1 + r.Intn(8)
 	}
 	c.tagW = 3
 	c.minW = 36
@@ -390,6 +395,16 @@ func c06main(c *Ctx) {
 			}
 			slog.SetLevelOutputWidth(cs.tagW)
 			slog.SetMessageMinimalWidth(cs.minW)
+			if cs.tsFlags != 0 {
+				for i, b := range []slog.Flags{slog.Ldate, slog.Ltime, slog.Lmicroseconds} {
+					if (cs.tsFlags-1)&(1<<i) != 0 {
+						slog.AddFlags(b)
+					} else {
+						slog.RemoveFlags(b)
+					}
+				}
+				c.R.Add("records_under_another_combination_of_the_date_time_flags", 1)
+			}
 			lg := newRoot(cs.name, FColor, w, slog.AlwaysLevel)
 			if cs.tsLayout != "" {
 				lg.SetTimeFormat(cs.tsLayout)
@@ -503,7 +518,7 @@ func c06main(c *Ctx) {
 		desc := cs.desc(FColor)
 		desc["ts"] = cs.ts.Format(time.RFC3339Nano)
 		desc["tag_width"], desc["min_width"], desc["layout_domain"], desc["other_flags"] = cs.tagW, cs.minW, cs.layoutOK, otherFlags
-		desc["logger_time_layout"] = cs.tsLayout
+		desc["logger_time_layout"], desc["date_time_flags"] = cs.tsLayout, map[bool]any{true: "factory", false: cs.tsFlags - 1}[cs.tsFlags == 0]
 		desc["level_colours_set"] = recolor
 		desc["same_logger_logged_before_in"] = []string{"-", "-", "json", "logfmt", "color", "a record that panicked while being formatted (recovered)"}[warm]
 		payload, viols := run(cs)
@@ -521,6 +536,46 @@ func c06main(c *Ctx) {
 			c.R.NonTrivial(string(payload))
 			if c.R.WantSample() && len(cs.kvs) > 1 {
 				c.R.Sample(idx, desc, map[string]any{"payload": string(payload)})
+			}
+			if idx%6 == 4 {
+				// an attribute LIST handed over as the VALUE of a plain key ("user", NewAttrs(...)); next to it attributes whose
+				// keys sort around the holder's and one that is named like a member: the members are printed under the holder's
+				// name, in key order, and the others as always
+				lg := newRoot(cs.name, FColor, w, slog.AlwaysLevel)
+				evs := capture(log, func() {
+					lg.Info("list-as-value", "zz", 1, "user", slog.NewAttrs("name", "ann", "id", 7), "id", "top", "aa", true)
+				})
+				if len(evs) == 1 {
+					first := strings.SplitN(string(oracle.StripANSI(evs[0].Data)), "\n", 2)[0]
+					toks := strings.Fields(first)
+					pos := map[string]int{}
+					for i, t := range toks {
+						if _, dup := pos[t]; !dup {
+							pos[t] = i + 1
+						}
+					}
+					order := []string{"aa=true", `id="top"`, "user.id=7", `user.name="ann"`, "zz=1"}
+					last, why := 0, ""
+					for _, t := range order {
+						if pos[t] == 0 {
+							why = fmt.Sprintf("the token %s is missing", t)
+							break
+						}
+						if pos[t] < last {
+							why = fmt.Sprintf("the token %s is out of key order", t)
+							break
+						}
+						last = pos[t]
+					}
+					if why == "" && (pos["id=7"] != 0 || pos[`name="ann"`] != 0) {
+						why = "a member of the list is printed without the name of its holder"
+					}
+					if why != "" {
+						c.R.Violation(idx, "layout-attrs", "C06/layout-attrs/attribute-list-as-a-value", fmt.Sprintf("Info(msg, zz=1, user=NewAttrs(name, id), id=\"top\", aa=true): %s: %q", why, clip(first, 400)), desc)
+						return
+					}
+					c.R.Add("records_with_an_attribute_list_as_a_value", 1)
+				}
 			}
 			return
 		}
@@ -635,11 +690,15 @@ func c06check(payload []byte, cs c06case, testing bool) (out []tv) {
 	text := oracle.StripANSI(payload)
 	tsText := cs.ts.Format(slog.TimeNano) // default flags: time + microseconds, zone of the instant
 	prefix := tsText + "| "
-	if cs.tsLayout != "" {
-		// the instant in the application's layout (which instant and zone: C16); the record goes on after the bar
+	if cs.tsLayout != "" || cs.tsFlags != 0 {
+		// the instant in the application's layout / the layout its flags select (which instant, zone and layout: C16); a
+		// record begins with a timestamp and goes on after the bar
 		i := strings.Index(text, "| ")
 		if i < 0 {
 			return append(out, tv{"layout-prefix", "prefix", fmt.Sprintf("record text %q has no timestamp bar", clip(text, 120))})
+		}
+		if strings.TrimSpace(text[:i]) == "" {
+			return append(out, tv{"layout-prefix", "no-timestamp", fmt.Sprintf("record text %q does not begin with a timestamp", clip(text, 120))})
 		}
 		prefix = text[:i+2]
 	}
